@@ -179,7 +179,31 @@ pub fn scenario(g: &mut G, ctx: &RunCtx) -> RunReport {
                 let mut out = Vec::new();
                 let mut buf = vec![0u8; sizes.iter().copied().max().unwrap_or(1)];
                 let mut i = 0;
+                // (no draw) one schedule in three hands the reader over to `read_to_string` after a few reads of
+                // its own: whatever a reader keeps in reserve between calls belongs to the text as well
+                let switch_after: Option<usize> = if (sizes[0] + sizes.len()) % 3 == 0 { Some(1 + sizes.len() % 3) } else { None };
                 loop {
+                    if switch_after == Some(i) {
+                        // `read_to_string` checks what *it* appends: only a caller whose own reads stopped at a
+                        // character boundary may use it, the others take `read_to_end`
+                        let at_boundary = std::str::from_utf8(&out).is_ok();
+                        let mut rest = Vec::new();
+                        let res = if at_boundary {
+                            let mut t = String::new();
+                            let r = r.read_to_string(&mut t);
+                            rest = t.into_bytes();
+                            r
+                        } else {
+                            r.read_to_end(&mut rest)
+                        };
+                        return match res {
+                            Ok(_) => {
+                                out.extend_from_slice(&rest);
+                                String::from_utf8(out).map_err(|_| "reader-produced-invalid-utf8".to_string())
+                            }
+                            Err(e) => Err(format!("read_to_end:{}", io_kind(&e))),
+                        };
+                    }
                     let sz = sizes[i % sizes.len()];
                     i += 1;
                     match r.read(&mut buf[..sz]) {
